@@ -271,3 +271,103 @@ def _indent_of(text, pos):
     ls = text.rfind('\n', 0, pos) + 1
     m = re.match(r'[ \t]*', text[ls:])
     return m.group(0)
+
+
+@rule('R1d')
+def r1_enumerate_deref(text):
+    """for (i, &x) in V.iter().enumerate() {   ->   for i in 0..V.len() { let x = V[i];      (R1 + R3, Copy elements)"""
+    pat = re.compile(r'([ \t]*)for \((%s), &(%s)\) in (%s)\.iter\(\)\.enumerate\(\) \{' % (IDENT, IDENT, IDENT))
+
+    def sub(m):
+        ind, i, x, v = m.groups()
+        return '%sfor %s in 0..%s.len() {\n%s    let %s = %s[%s];' % (ind, i, v, ind, x, v, i)
+    return pat.subn(sub, text)
+
+
+@rule('R13')
+def r13_iter_mut_skip(text):
+    """for x in V.iter_mut().skip(K) { .. x[0] = e .. / *x = e .. }  ->  for vt_i in K..V.len() { .. V[vt_i][0] = e / V[vt_i] = e .. }"""
+    pat = re.compile(r'for (%s) in ([A-Za-z_][A-Za-z0-9_\[\]]*)\.iter_mut\(\)\.skip\(([0-9]+)\) \{' % IDENT)
+    n = 0
+    while True:
+        m = pat.search(text)
+        if not m:
+            break
+        x, v, k = m.groups()
+        o = m.end() - 1
+        c = _balanced(text, o, '{', '}')
+        body = text[o + 1:c]
+        body2 = re.sub(r'\*' + x + r'\b', '%s[vt_i]' % v, body)
+        body2 = re.sub(r'\b' + x + r'\[', '%s[vt_i][' % v, body2)
+        if re.search(r'\b' + x + r'\b', body2):
+            raise RuleError('R13: loop variable %s used in an unsupported way' % x)
+        text = text[:m.start()] + 'for vt_i in %s..%s.len() {' % (k, v) + body2 + text[c:]
+        n += 1
+    return text, n
+
+
+@rule('R6_split_ws')
+def r6_split_ws(text):
+    """X.split_ascii_whitespace().collect::<Vec<&str>>()  ->  vt_split_ascii_whitespace(X)"""
+    return re.subn(r'\b(%s)\.split_ascii_whitespace\(\)\.collect::<Vec<&str>>\(\)' % IDENT, r'vt_split_ascii_whitespace(\1)', text)
+
+
+@rule('R6_max_by_key0')
+def r6_max_by_key0(text):
+    """V.iter().max_by(|(a, _), (b, _)| a.cmp(b)).expect(..)   ->  vt_max_by_key0(&V)     (std: LAST maximum)
+       V.iter().min_by(|(a, _), (b, _)| a.cmp(b)).expect(..)   ->  vt_min_by_key0(&V)     (std: FIRST minimum)"""
+    pat = re.compile(r'\b(%s)\s*\.iter\(\)\s*\.(max|min)_by\(\|\((%s), _\), \((%s), _\)\| (%s)\.cmp\((%s)\)\)\s*\.expect\("[^"]*"\)' % ((IDENT,) * 5))
+
+    def sub(m):
+        v, which, a, b, a2, b2 = m.groups()
+        if a != a2 or b != b2:
+            return m.group(0)
+        return 'vt_%s_by_key0(&%s)' % (which, v)
+    return pat.subn(sub, text)
+
+
+@rule('R6_sets')
+def r6_sets(text):
+    """named HashSet idioms of edit::edited_words:
+       HashSet::from_iter(0..N)                     -> vt_set_range(N)
+       M.iter().map(|(a, _)| *a).collect()          -> vt_set_fst(&M)      (|(_, b)| *b -> vt_set_snd)
+       A.difference(&B).cloned().collect()          -> vt_set_difference(&A, &B)"""
+    n = 0
+    text, k = re.subn(r'HashSet::from_iter\(0\.\.(%s)\)' % IDENT, r'vt_set_range(\1)', text)
+    n += k
+    pat = re.compile(r'\b(%s)\s*\.iter\(\)\s*\.map\(\|\((%s), (%s)\)\| \*(%s)\)\s*\.collect\(\)' % ((IDENT,) * 4))
+
+    def sub(m):
+        v, a, b, x = m.groups()
+        if a != '_' and b == '_' and x == a:
+            return 'vt_set_fst(&%s)' % v
+        if a == '_' and b != '_' and x == b:
+            return 'vt_set_snd(&%s)' % v
+        return m.group(0)
+    text, k = pat.subn(sub, text)
+    n += k
+    text, k = re.subn(r'\b(%s)\.difference\(&(%s)\)\.cloned\(\)\.collect\(\)' % (IDENT, IDENT), r'vt_set_difference(&\1, &\2)', text)
+    n += k
+    return text, n
+
+
+@rule('R16')
+def r16_hoist_arg(text, call, name):
+    """ANF step:  STMT( .. CALL .. )  ->  let NAME = CALL; STMT( .. NAME .. )
+    allowed only when everything evaluated before CALL inside the statement is a plain variable (checked: the text
+    between the start of the statement and CALL consists of identifiers, `(`, `,` and whitespace, apart from the
+    callee path), so evaluation order is unchanged."""
+    k = text.find(call)
+    if k < 0:
+        return text, 0
+    # start of the enclosing statement: after the previous `;`, `{` or `}` at the same line structure
+    s = max(text.rfind(';', 0, k), text.rfind('{', 0, k), text.rfind('}', 0, k)) + 1
+    between = text[s:k]
+    if not re.match(r'^\s*(let\s+(mut\s+)?%s(\s*:\s*[^=]+)?\s*=\s*)?[A-Za-z_][A-Za-z0-9_:]*\(\s*((%s)\s*,\s*)*$' % (IDENT, IDENT), between):
+        raise RuleError('R16: statement prefix %r is not a call on plain variables' % between)
+    ls = text.rfind('\n', 0, s) + 1 if text[s:k].lstrip() == text[s:k] else s
+    m = re.match(r'\s*', text[s:])
+    ind_start = s + len(m.group(0))
+    indent = _indent_of(text, ind_start)
+    new = text[:ind_start] + 'let %s = %s;\n%s' % (name, call, indent) + text[ind_start:k] + name + text[k + len(call):]
+    return new, 1
